@@ -718,7 +718,7 @@ pub fn run_roller(tier: &str, jobs: usize, best: &mut Best, depth_override: Opti
         add("retention", json!(p.retention));
         add("compression", json!(p.compression));
         add("flush_each_write", json!(p.flush_each_write));
-        add("depth", json!(format!("{depth} for flush_each_write={} retention={:?} compression={}", p.flush_each_write, p.retention, p.compression)));
+        add("depth", json!(format!("{depth} (flush_each_write={})", p.flush_each_write)));
         b.insert("alphabet".into(), json!(alpha.iter().map(|a| a.name()).collect::<Vec<_>>()));
         let n = b.get("policies").and_then(|v| v.as_u64()).unwrap_or(0);
         b.insert("policies".into(), json!(n + 1));
